@@ -31,7 +31,9 @@ package modules
 //@   requires forall n string :: in(n, m.modules) ==> m.modules[n] != nil
 //@   ghost var pos total[string]int = havoc
 //@   ensures  unique: forall p, q int :: 0 <= p && p < q && q < len(result) ==> result[p] != result[q]
-//@   ensures  order: forall p int :: 0 <= p && p < len(result) ==> in(result[p], m.modules) ==>
+//@   ensures  known: forall p int :: 0 <= p && p < len(result) ==> in(result[p], m.modules)
+//@   ensures  frame: same(m, old(m))
+//@   at exit: assert order: forall p int :: 0 <= p && p < len(result) ==> in(result[p], m.modules) ==>
 //@              (forall j int :: 0 <= j && j < len(m.modules[result[p]].deps) ==>
 //@                 0 <= pos[m.modules[result[p]].deps[j]] && pos[m.modules[result[p]].deps[j]] < p && result[pos[m.modules[result[p]].deps[j]]] == m.modules[result[p]].deps[j])
 //@   loop 0 invariant forall n string :: in(n, uniq) ==> !uniq[n] && in(n, m.modules)
@@ -71,3 +73,36 @@ package modules
 //@   ghost var waited bool = false
 //@   at after@modules.moduleService.waitForModulesToStop: waited := true
 //@   at before@services.StopAndAwaitTerminated: assert waited
+//@
+//@ # ---- initialisation: every module's init function runs at most once per InitModuleServices call ----
+//@ # initMap is the bookkeeping: a module's init function is invoked only while the module is not yet marked, the module is
+//@ # marked afterwards, marks are never removed, and on success the requested module and everything it was ordered
+//@ # after are marked. InitModuleServices hands the same bookkeeping map to every target.
+//@ assume func Manager.inverseDependenciesForModule
+//@   modifies nothing
+//@ assume func newModuleServiceWrapper
+//@   modifies nothing
+//@
+//@ func Manager.initModule
+//@   property C18
+//@   requires !isnil(initMap) && !isnil(servicesMap)
+//@   requires forall k string :: in(k, m.modules) ==> m.modules[k] != nil
+//@   ghost var invoked set[string] = emptyset("")
+//@   at before@mod.initFn: assert once: !get(initMap, n) && !invoked[n]
+//@   at after@mod.initFn: invoked := setadd(invoked, n)
+//@   ensures  monotone: forall k string :: get(old(initMap), k) ==> get(initMap, k)
+//@   ensures  requested: result == nil ==> get(initMap, name)
+//@   ensures  frame: same(m, old(m)) && !isnil(initMap) && !isnil(servicesMap)
+//@   at exit: assert marked: result == nil ==> (forall k string :: invoked[k] ==> get(initMap, k) && !get(old(initMap), k))
+//@   loop 0 invariant !isnil(initMap) && !isnil(servicesMap) && same(m, old(m)) && len(deps) >= 1 && deps[len(deps)-1] == name
+//@   loop 0 invariant forall k string :: get(old(initMap), k) ==> get(initMap, k)
+//@   loop 0 invariant forall j int :: 0 <= j && j < $i ==> get(initMap, deps[j])
+//@   loop 0 invariant forall k string :: invoked[k] ==> get(initMap, k) && !get(old(initMap), k)
+//@
+//@ func Manager.InitModuleServices
+//@   property C18
+//@   requires forall k string :: in(k, m.modules) ==> m.modules[k] != nil
+//@   ghost var marked set[string] = emptyset("")
+//@   at before@modules.Manager.initModule: assert shared: forall k string :: marked[k] ==> get(initMap, k)
+//@   at after@modules.Manager.initModule: marked := setof k string :: get(initMap, k)
+//@   loop 0 invariant !isnil(initMap) && !isnil(servicesMap) && same(m, old(m)) && (forall k string :: marked[k] ==> get(initMap, k))
